@@ -64,6 +64,49 @@ CHECKS["C02"] = ("model_checking",
     "Trusted: TLC and the transcription of the ABNF; free zone listed in DESIGN.md section 4 C02 (bare LF, CR next to OWS, "
     "obs-text, URL-normalised targets).", "4 C02")
 
+CHECKS["C06"] = ("model_checking",
+    "TLA+ predicates Response!FieldsOk/BodyOk/RefuseSet + independent RFC 7230 response-head parser + Chunked decoder; "
+    "generated responses serialised by the real write_http_response under several writer schedules, judged by TLC",
+    "Response.tla states what may be on the wire as a predicate (status line grammar; user fields verbatim in order; "
+    "content-type iff a type is set; connection: close iff closing; exactly one of content-length = body length / "
+    "transfer-encoding: chunked; refusal before any byte when an automatic field is duplicated). 600 (quick) / 6000 "
+    "(thorough) generated responses over all status codes, content types, field names and body variants and sizes are "
+    "serialised under up to 4 writer schedules; TLC parses each head back with ParseHead, checks the fields and the "
+    "walked body, and demands identical bytes under every schedule. MC_Chunked model-checks the chunked framing used "
+    "for unknown-length bodies.",
+    "Trusted: TLC; lexical walk of the body; bodies compared by length + 31-bit digest. Free zone: reason phrase text, "
+    "relative order of automatic and user fields, user values with leading/trailing blanks.", "4 C06")
+CHECKS["C07"] = ("model_checking",
+    "TLA+ encoder machine MC_Chunked model-checked by TLC (Decodes, NoEarlyZero, ErrorLeavesNoTerminator, hex round "
+    "trip for 1..65528); real copy_chunked_async run for EVERY piece length and on random faulted streams, output "
+    "judged by the RFC 7230 4.1 decoder in TLA+",
+    "MC_Chunked explores all sources of up to 3 pieces of 1..20 bytes with an encoder buffer of 17, source errors and "
+    "writer failures at every segment. The real encoder is run for every piece length 1..65528 (exhaustive) and on "
+    "random streams with adversarial piece lengths, source errors and writer failures at and inside chunk boundaries; "
+    "TLC checks each size line = data length (ParseHex), CRLFs, no early zero chunk, exactly one terminator, decoded "
+    "bytes = source, and no terminator after a source error.",
+    "Trusted: TLC; the lexical walk follows the sizes the stream itself declares; data compared by length + digest.",
+    "4 C07")
+CHECKS["C08"] = ("fault_enumeration",
+    "write error injected at every byte offset of 8 responses and body-source faults, at serialiser and connection "
+    "level; each outcome judged by TLC against Response!WriteFaultOk/BodyFaultOk/ConnFaultOk and Conn.tla",
+    "Exhaustive fault enumeration over byte offsets: for each of 8 response variants a write error after every "
+    "accepted-byte count 0..len+1 under two write granularities; body files shorter than declared by several amounts, "
+    "missing, or removed between head and body; connection-level cases over loopback followed by the 500 that "
+    "handle_http_conn would send. TLC checks: emitted bytes are exactly the canonical prefix, a partial write ends "
+    "in write state Shutdown with one status line, a clean refusal leaves the response owed and one 500 goes out. "
+    "Conn.tla (model-checked) carries the same rule (MisuseIsInert / SilentAfterShutdown).",
+    "Trusted: the scripted writer; a real socket cannot be failed at a chosen offset, so connection-level cases use "
+    "body-source faults only.", "4 C08")
+CHECKS["C20"] = ("model_checking",
+    "TLA+ tables Status!Class/CtorOk/CloseMarkOk + Conn.tla close rule; exhaustive enumeration of constructors, error "
+    "variants and status codes 100..999 on the real code, judged by TLC",
+    "Table property: the specification acts as a transcribed oracle. Every status-named constructor, every HttpError "
+    "variant (payloads with paths and CR/LF) mapped to a response, serialised and read back, and every status 100..999 "
+    "through a loopback HttpConn are checked against Status.tla; Conn.tla's FiveXXCloses is model-checked.",
+    "Trusted: TLC; the constructor list is re-derived from response.rs on each run and unknown constructors are "
+    "reported as uncovered.", "4 C20")
+
 NOT_APPLICABLE = {}
 
 
